@@ -100,6 +100,13 @@ class CU32:
         self.v = v
 
 
+class SExt:
+    """signed k-bit truncation of the current value of operand `src` (the idiom (x & (2**(k-1) - 1)) - (x & 2**(k-1)))"""
+
+    def __init__(self, src, k):
+        self.src, self.k = src, k
+
+
 class Cell:
     __slots__ = ('lo', 'hi', 'delta', 'm', 'r')
 
@@ -291,6 +298,15 @@ class Interp:
                 raise Unsupported('cannot fold {}: {}'.format(unparse(node), e))
         a = self.as_int_view(a, st, node)
         b = self.as_int_view(b, st, node)
+        if op is ast.Sub and isinstance(a, Bits) and isinstance(b, Bits) and a.bits and b.bits:
+            # (x & (2**(k-1) - 1)) - (x & 2**(k-1)): sign extension of the low k bits of one operand
+            k = len(b.bits)
+            top = b.bits[-1]
+            if (isinstance(top, tuple) and top[0] in st.cells and all(x == 0 for x in b.bits[:-1]) and top[1] == k - 1
+                    and len(a.bits) <= k - 1 and all(x == (top[0], j) for j, x in enumerate(a.bits))
+                    and len(a.bits) == k - 1):
+                self.masks = [m for m in self.masks if not (m['src'] == top[0] and m['node'] in (node.left, node.right))]
+                return SExt(top[0], k)
         if op in (ast.Add, ast.Sub):
             if isinstance(a, View) and isinstance(b, int) and a.shift == 0 and a.trunc is None:
                 return View(a.src, a.add + (b if op is ast.Add else -b), 0, None)
@@ -593,7 +609,47 @@ class Interp:
             return st
         raise Unsupported('statement form {}: {}'.format(type(s).__name__, unparse(s).split('\n')[0]))
 
+    def commit_sext(self, v, st, node):
+        """current := signed k-bit truncation of current, cell by cell (each 2**k period becomes its own cell)."""
+        if st.shift[v.src]:
+            raise Unsupported('sign extension after a shift at {}'.format(unparse(node)))
+        P = 1 << v.k
+        half = P >> 1
+        out = []
+        for c in st.cells[v.src]:
+            lo_c = c.lo + c.delta if c.lo > -INF else None
+            hi_c = c.hi + c.delta if c.hi < INF else None
+            if lo_c is None and hi_c is None:
+                n_lo, n_hi = -2, 2
+            elif lo_c is None:
+                n_hi = (hi_c + half) // P
+                n_lo = n_hi - 3
+            elif hi_c is None:
+                n_lo = (lo_c + half) // P
+                n_hi = n_lo + 3
+            else:
+                n_lo, n_hi = (lo_c + half) // P, (hi_c + half) // P
+                if n_hi - n_lo > 64:
+                    n_hi = n_lo + 64
+                    st.imprecise = True
+            if lo_c is None or hi_c is None:
+                st.imprecise = True          # further periods exist; the enumerated ones are exact
+            for n in range(n_lo, n_hi + 1):
+                seg_lo = n * P - half - c.delta
+                seg_hi = n * P + half - 1 - c.delta
+                nc = Cell(max(c.lo, seg_lo), min(c.hi, seg_hi), c.delta - n * P, c.m, c.r)
+                if nc.lo <= nc.hi:
+                    out.append(nc)
+        st.cells[v.src] = [x for x in (y.norm() for y in out) if x is not None]
+
     def assign(self, name, v, st, node):
+        if isinstance(v, SExt):
+            for other, ov in st.env.items():
+                if other != name and isinstance(ov, View) and ov.src == v.src:
+                    raise Unsupported('operand {} sign-extended while aliased by {!r}'.format(v.src, other))
+            self.commit_sext(v, st, node)
+            st.env[name] = View(v.src)
+            return
         if isinstance(v, View) and (v.add != 0 or v.shift != 0) and v.trunc is None:
             # commit the adjustment to the operand's cells; refuse if another live alias would go stale
             for other, ov in st.env.items():
